@@ -14,6 +14,7 @@ import (
 	"encoding/json"
 	"fmt"
 	"math/big"
+	"os"
 	"sort"
 	"strconv"
 	"strings"
@@ -21,6 +22,7 @@ import (
 	"com.tuntun.rangers/node/src/common"
 	"com.tuntun.rangers/node/src/middleware/types"
 	"com.tuntun.rangers/node/src/service"
+	"com.tuntun.rangers/node/src/storage/account"
 	"com.tuntun.rangers/node/src/utility"
 	"verif/harness/hx"
 	nx "verif/harness/nodehx"
@@ -50,6 +52,9 @@ type world struct {
 	h          uint64
 	proposerId []byte
 	groupId    []byte
+	progDesc   map[string]interface{} // programs currently installed on C0..C2
+	kmOp       byte                   // custom opcode KM's current code runs first (0: none)
+	c0Arg      *big.Int               // amount C0's current code forwards to KM (nil: C0 does not call KM)
 }
 
 func newWorld(r *hx.Rng) *world {
@@ -99,7 +104,9 @@ func newWorld(r *hx.Rng) *world {
 	return w
 }
 
-func (w *world) lockedTotal() *big.Int {
+func (w *world) lockedTotal() *big.Int { return w.lockedTotalOn(w.ADB) }
+
+func (w *world) lockedTotalOn(adb *account.AccountDB) *big.Int {
 	s := new(big.Int)
 	seen := map[string]bool{}
 	for _, id := range w.minerId {
@@ -107,7 +114,7 @@ func (w *world) lockedTotal() *big.Int {
 			continue
 		}
 		seen[string(id)] = true
-		if m := service.MinerManagerImpl.GetMiner(id, w.ADB); m != nil {
+		if m := service.MinerManagerImpl.GetMiner(id, adb); m != nil {
 			s.Add(s, nx.Tokens(m.Stake))
 		}
 	}
@@ -129,10 +136,12 @@ type escrowEntry struct {
 	V *big.Int
 }
 
-func (w *world) escrow() []escrowEntry {
+func (w *world) escrow() []escrowEntry { return w.escrowOn(w.ADB) }
+
+func (w *world) escrowOn(adb *account.AccountDB) []escrowEntry {
 	var es []escrowEntry
 	for _, h := range w.sortedHeights() {
-		m := nx.Escrow(w.ADB, h)
+		m := nx.Escrow(adb, h)
 		as := make([]common.Address, 0, len(m))
 		for a := range m {
 			as = append(as, a)
@@ -158,8 +167,24 @@ var amountZoo = []string{"0", "1", "1.5", "0.000000000000000001", "0.00000000000
 	"1000000000000000000000000000000", "abc", "", "1e3", "1e-19", "0x10", " 2", "5000", "4999.9", "2.000000000000000000", "999999.9", ".5", "+3", "--1", "1.2.3", "NaN", "Inf"}
 
 func pickAmount(r *hx.Rng) string {
-	if r.Intn(2) == 0 {
-		return strconv.Itoa(r.Intn(3000)) + "." + strconv.Itoa(r.Intn(1000000))
+	switch k := r.Intn(20); {
+	case k < 13:
+		return strconv.Itoa(r.Intn(40)) + "." + strconv.Itoa(r.Intn(1000000))
+	case k < 16:
+		return strconv.Itoa(r.Intn(6000)) + "." + strconv.Itoa(r.Intn(1000000))
+	}
+	return amountZoo[r.Intn(len(amountZoo))]
+}
+
+// transferValue of a contract tx
+func pickValue(r *hx.Rng) string {
+	switch k := r.Intn(20); {
+	case k < 6:
+		return "0"
+	case k < 14:
+		return strconv.Itoa(r.Intn(20)) + "." + strconv.Itoa(r.Intn(1000))
+	case k < 16:
+		return strconv.Itoa(r.Intn(6000)) + "." + strconv.Itoa(r.Intn(1000000))
 	}
 	return amountZoo[r.Intn(len(amountZoo))]
 }
@@ -316,14 +341,56 @@ func short(w *world, a common.Address) string {
 	return a.GetHexString()[:10]
 }
 
-// ---- one generated block ----
+// ---- one generated transaction ----
+// mctx is what a model-term builder may look at: the state just before its tx inside the block (a copy of the
+// committed state on which the preceding txs of the block were executed by the real loop), the recorded EVM
+// ledger trace of a contract tx, its receipt from the real run and the stale gasUsed left in the executor context.
+type mctx struct {
+	idx   func(common.Address) int
+	pre   *account.AccountDB
+	info  *nx.ContractInfo
+	rc    *types.Receipt
+	stale *uint64
+	h     uint64
+}
+
 type gen struct {
-	kind   string // transfer | call | create | lock | refund | feeonly | opnode | custom | idle
+	kind   string // transfer | call | create | lock | refund | feeonly | opnode | custom
 	tx     *types.Transaction
 	desc   map[string]interface{}
-	model  func(idx func(common.Address) int, info *nx.ContractInfo, rc *types.Receipt) (string, bool) // Coq tx term
-	custom string                                                                                      // "stake" | "unstake" for custom-opcode programs (searched only)
+	model  func(m *mctx) (string, bool) // Coq tx term
+	custom *customOp                    // STAKE / UNSTAKE / UNSTAKEALL run by the miner contract KM
 	negVal bool
+}
+
+// cparams: the contract tx as it arrives, for the model's contract_tx (decode / precheck / intrinsic gas are the model's).
+type cparams struct {
+	jsonOK   bool
+	gas, val string
+	data     []byte
+	creation bool
+}
+
+func (c cparams) coq() string {
+	g := "GBad"
+	if c.gas == "" || c.gas == "0" {
+		g = "GDefault"
+	} else if n, err := strconv.ParseUint(c.gas, 10, 64); err == nil {
+		g = fmt.Sprintf("(GNum %d)", n)
+	}
+	v, ok := parseAmt(c.val)
+	nz := 0
+	for _, b := range c.data {
+		if b != 0 {
+			nz++
+		}
+	}
+	return fmt.Sprintf("%s %s %s %s %d %d", hx.CoqBool(c.jsonOK), g, optZ(v, ok), hx.CoqBool(c.creation), nz, len(c.data)-nz)
+}
+
+type customOp struct {
+	op     byte
+	amount *big.Int
 }
 
 func contractData(gas, val string, data []byte) string {
@@ -347,8 +414,9 @@ func optZ(v *big.Int, ok bool) string {
 
 var gasZoo = []string{"", "0", "3000000", "30000000", "700000", "100000", "21000", "900000001", "99999999999", "abc", "-1", "5000000"}
 
-func (w *world) generate(r *hx.Rng) gen {
-	src := w.S[[]int{0, 0, 0, 0, 0, 0, 1, 1, 1, 1, 2, 3}[r.Intn(12)]]
+// generate one tx. installed: the block already holds a tx that installed contract code (the programs are shared).
+func (w *world) generate(r *hx.Rng, installed *bool) gen {
+	src := w.S[[]int{0, 0, 0, 0, 0, 0, 0, 1, 1, 1, 1, 1, 2, 3}[r.Intn(14)]]
 	srcHex := nx.AddrHex(src)
 	k := r.Intn(100)
 	switch {
@@ -363,25 +431,27 @@ func (w *world) generate(r *hx.Rng) gen {
 			amt string
 		}
 		var tl []ta
-		cands := []common.Address{w.T[0], w.T[1], w.S[3], w.C[0], common.FeeAccount, w.S[1]}
-		if n == 1 && r.Intn(6) == 0 {
-			cands = []common.Address{src} // self-transfer only alone: ChangeAssets ranges over a Go map (C01)
+		cands := []common.Address{w.T[0], w.T[1], w.S[3], w.C[0], common.FeeAccount, w.S[1], src}
+		if n == 1 && r.Intn(8) == 0 {
+			cands = []common.Address{src}
 		}
 		for i := 0; i < n; i++ {
 			t := cands[r.Intn(len(cands))]
-			if t == src && n > 1 {
-				continue
-			}
 			if _, dup := targets[nx.AddrHex(t)]; dup {
 				continue
 			}
 			amt := pickAmount(r)
-			if r.Intn(5) == 0 {
+			if r.Intn(8) == 0 {
 				amt = utility.BigIntToStr(w.ADB.GetBalance(src)) // everything (the fee is taken first, so this fails)
+			}
+			if r.Intn(10) == 0 { // everything but the fee: succeeds alone, fails in the middle of a multi-target transfer
+				amt = utility.BigIntToStr(new(big.Int).Sub(w.ADB.GetBalance(src), fee))
 			}
 			targets[nx.AddrHex(t)] = types.TransferData{Balance: amt}
 			tl = append(tl, ta{t, amt})
 		}
+		// ChangeAssets visits the targets in sorted key order (fix c254982 of property C01): so does the model
+		sort.Slice(tl, func(i, j int) bool { return nx.AddrHex(tl[i].a) < nx.AddrHex(tl[j].a) })
 		extra, _ := json.Marshal(targets)
 		if r.Intn(25) == 0 {
 			extra = []byte("{not json")
@@ -390,59 +460,70 @@ func (w *world) generate(r *hx.Rng) gen {
 		tx := nx.NewTx(types.TransactionTypeOperatorEvent, srcHex, "", "", string(extra))
 		bad := string(extra) == "{not json"
 		return gen{kind: "transfer", tx: tx, desc: map[string]interface{}{"src": short(w, src), "extra": string(extra)},
-			model: func(idx func(common.Address) int, _ *nx.ContractInfo, _ *types.Receipt) (string, bool) {
+			model: func(m *mctx) (string, bool) {
 				var ps []string
 				if bad {
-					ps = append(ps, fmt.Sprintf("(%d%%N, None)", idx(src)))
+					ps = append(ps, fmt.Sprintf("(%d%%N, None)", m.idx(src)))
 				}
 				for _, t := range tl {
 					v, ok := parseAmt(t.amt)
-					ps = append(ps, fmt.Sprintf("(%d%%N, %s)", idx(t.a), optZ(v, ok)))
+					ps = append(ps, fmt.Sprintf("(%d%%N, %s)", m.idx(t.a), optZ(v, ok)))
 				}
-				return fmt.Sprintf("TTransfer %d%%N [%s]", idx(src), strings.Join(ps, "; ")), true
+				return fmt.Sprintf("TTransfer %d%%N [%s]", m.idx(src), strings.Join(ps, "; ")), true
 			}}
-	case k < 62: // contract call
+	case k < 58: // contract call
 		self := w.C[0]
-		p := w.genProg(r, self, 0)
-		if r.Intn(12) == 0 { // the frame moves the origin's whole balance away (AUTHCALL takes its value from the origin)
-			a := &nx.Asm{}
-			cd := w.AuthCD[self]
-			for off := 0; off < 128; off += 32 {
-				a.PushBytes(cd[off : off+32]).PushU(uint64(off)).Op(nx.MSTORE)
+		var desc map[string]interface{}
+		if !*installed {
+			*installed = true
+			p := w.genProg(r, self, 0)
+			if r.Intn(10) == 0 { // the frame moves the origin's whole balance away (AUTHCALL takes its value from the origin)
+				a := &nx.Asm{}
+				cd := w.AuthCD[self]
+				for off := 0; off < 128; off += 32 {
+					a.PushBytes(cd[off : off+32]).PushU(uint64(off)).Op(nx.MSTORE)
+				}
+				a.PushU(128).PushU(0).PushAddr(w.Auth).Op(nx.AUTH, nx.POP)
+				a.PushU(0).PushU(0).PushU(0).PushU(0).PushU(0).Op(nx.ORIGIN, nx.BALANCE).PushAddr(w.T[0]).PushU(0).PushU(0).Op(nx.AUTHCALL, nx.POP, nx.STOP)
+				p = prog{a.B, []string{"auth", "v=balance(origin)", "authcall:T0", "stop"}}
 			}
-			a.PushU(128).PushU(0).PushAddr(w.Auth).Op(nx.AUTH, nx.POP)
-			a.PushU(0).PushU(0).PushU(0).PushU(0).PushU(0).Op(nx.ORIGIN, nx.BALANCE).PushAddr(w.T[0]).PushU(0).PushU(0).Op(nx.AUTHCALL, nx.POP, nx.STOP)
-			p = prog{a.B, []string{"auth", "v=balance(origin)", "authcall:T0", "stop"}}
+			c1 := w.genProg(r, w.C[1], 1)
+			c2 := w.genProg(r, w.C[2], 1)
+			w.c0Arg = nil
+			w.ADB.SetCode(self, p.code)
+			w.ADB.SetCode(w.C[1], c1.code)
+			w.ADB.SetCode(w.C[2], c2.code)
+			w.progDesc = map[string]interface{}{"C0": p.desc, "C1": c1.desc, "C2": c2.desc, "code": common.ToHex(p.code)}
 		}
-		c1 := w.genProg(r, w.C[1], 1)
-		c2 := w.genProg(r, w.C[2], 1)
-		w.ADB.SetCode(self, p.code)
-		w.ADB.SetCode(w.C[1], c1.code)
-		w.ADB.SetCode(w.C[2], c2.code)
-		val := pickAmount(r)
-		if r.Intn(3) == 0 {
-			val = "0"
+		desc = map[string]interface{}{}
+		for k, v := range w.progDesc {
+			desc[k] = v
 		}
-		gas := gasZoo[r.Intn(len(gasZoo))]
-		if r.Intn(4) > 0 {
-			gas = []string{"3000000", "5000000", "30000000", ""}[r.Intn(4)]
+		val := pickValue(r)
+		gas := []string{"3000000", "5000000", "30000000", ""}[r.Intn(4)]
+		if r.Intn(6) == 0 {
+			gas = gasZoo[r.Intn(len(gasZoo))]
 		}
 		tgt := self
-		if r.Intn(12) == 0 {
+		switch r.Intn(14) {
+		case 0:
 			tgt = w.T[0]
+		case 1:
+			tgt = w.C[1]
 		}
 		tx := nx.NewTx(types.TransactionTypeContract, srcHex, nx.AddrHex(tgt), contractData(gas, val, nil), "")
+		cp := cparams{true, gas, val, nil, false}
 		if r.Intn(40) == 0 {
 			tx = nx.NewTx(types.TransactionTypeContract, srcHex, nx.AddrHex(tgt), "{bad", "")
+			cp.jsonOK = false
 		}
 		v, vok := parseAmt(val)
-		return gen{kind: "call", tx: tx, negVal: vok && v.Sign() < 0,
-			desc:  map[string]interface{}{"src": short(w, src), "to": short(w, tgt), "gas": gas, "value": val, "C0": p.desc, "C1": c1.desc, "C2": c2.desc, "code": common.ToHex(p.code)},
-			model: contractModel(src)}
-	case k < 70: // contract creation
+		desc["src"], desc["to"], desc["gas"], desc["value"] = short(w, src), short(w, tgt), gas, val
+		return gen{kind: "call", tx: tx, negVal: vok && v.Sign() < 0, desc: desc, model: w.contractModel(src, nil, cp)}
+	case k < 66: // contract creation
 		names := []string{"stop", "suicide-self", "revert", "invalid", "runtime-suicide-self"}
 		nm := names[r.Intn(len(names))]
-		val := pickAmount(r)
+		val := pickValue(r)
 		gas := "3000000"
 		if r.Intn(4) == 0 {
 			gas = gasZoo[r.Intn(len(gasZoo))]
@@ -450,35 +531,74 @@ func (w *world) generate(r *hx.Rng) gen {
 		tx := nx.NewTx(types.TransactionTypeContract, srcHex, "", contractData(gas, val, childInit[nm]), "")
 		v, vok := parseAmt(val)
 		return gen{kind: "create", tx: tx, negVal: vok && v.Sign() < 0,
-			desc: map[string]interface{}{"src": short(w, src), "init": nm, "gas": gas, "value": val}, model: contractModel(src)}
-	case k < 80: // miner apply / add
+			desc: map[string]interface{}{"src": short(w, src), "init": nm, "gas": gas, "value": val}, model: w.contractModel(src, nil, cparams{true, gas, val, childInit[nm], true})}
+	case k < 77: // miner apply / add
 		return w.genLock(r, src)
-	case k < 86: // miner refund
+	case k < 85: // miner refund
 		return w.genRefund(r, src)
-	case k < 90: // change account that is refused, or unknown miner: fee only
+	case k < 88: // change account of an unknown miner: fee only
 		m := types.Miner{Id: []byte{0xde, 0xad}, Account: w.T[0].Bytes()}
 		md, _ := json.Marshal(m)
 		tx := nx.NewTx(types.TransactionTypeMinerChangeAccount, srcHex, "", string(md), "")
 		return gen{kind: "feeonly", tx: tx, desc: map[string]interface{}{"src": short(w, src), "what": "change-account of unknown miner"},
-			model: func(idx func(common.Address) int, _ *nx.ContractInfo, _ *types.Receipt) (string, bool) {
-				return fmt.Sprintf("TFeeOnly %d%%N", idx(src)), true
+			model: func(m *mctx) (string, bool) {
+				return fmt.Sprintf("TFeeOnly %d%%N", m.idx(src)), true
 			}}
-	case k < 93: // operator node
+	case k < 91: // operator node
 		tx := nx.NewTx(types.TransactionTypeOperatorNode, srcHex, "", "", "")
 		return gen{kind: "opnode", tx: tx, desc: map[string]interface{}{"src": short(w, src)},
-			model: func(idx func(common.Address) int, _ *nx.ContractInfo, rc *types.Receipt) (string, bool) {
+			model: func(m *mctx) (string, bool) {
 				// the registry-side outcome (miner found by account, create2 call) is taken from the receipt
-				return fmt.Sprintf("TOperatorNode %d%%N %s", idx(src), hx.CoqBool(rc != nil && rc.Status == 1)), true
+				return fmt.Sprintf("TOperatorNode %d%%N %s", m.idx(src), hx.CoqBool(m.rc != nil && m.rc.Status == 1)), true
 			}}
-	case k < 97: // custom opcodes on the miner contract (searched only)
+	default: // custom opcodes on the miner contract
+		if *installed {
+			return w.generate(r, installed)
+		}
+		*installed = true
 		return w.genCustom(r, src)
-	default:
-		return gen{kind: "idle", desc: map[string]interface{}{}}
 	}
 }
 
-func contractModel(src common.Address) func(idx func(common.Address) int, info *nx.ContractInfo, rc *types.Receipt) (string, bool) {
-	return func(idx func(common.Address) int, info *nx.ContractInfo, rc *types.Receipt) (string, bool) {
+// customEvents: what STAKE / UNSTAKE / UNSTAKEALL executed by KM does to the ledger, from the registry as it is just
+// before the tx (m.pre), following opStake / opUnStake / opUnStakeAll + AddStake / GetRefundStake branch by branch.
+func (w *world) customEvents(c *customOp, origin common.Address, m *mctx) []string {
+	if c.op == 0 {
+		return nil
+	}
+	id := service.MinerManagerImpl.GetMinerIdByAccount(w.KM.Bytes(), m.pre)
+	if id == nil {
+		return nil
+	}
+	mi := service.MinerManagerImpl.GetMiner(id, m.pre)
+	if mi == nil {
+		return nil
+	}
+	whole, err := strconv.ParseUint(utility.BigIntToStrWithoutDot(c.amount), 10, 0)
+	switch c.op {
+	case nx.STAKE:
+		if err != nil || whole == 0 {
+			return nil
+		}
+		return []string{fmt.Sprintf("L %d%%N %s", m.idx(w.KM), zlit(utility.Float64ToBigInt(float64(whole))))}
+	case nx.UNSTAKE:
+		// the ParseUint error is ignored by opUnStake: a range error yields MaxUint64 = "the whole stake"
+		if whole == ^uint64(0) {
+			whole = mi.Stake
+		}
+		if mi.Stake < whole {
+			return nil
+		}
+		return []string{fmt.Sprintf("Un %d%%N %d%%N %s %s %d%%N", m.idx(origin), m.idx(w.KM), zlit(c.amount), zlit(nx.Tokens(whole)), m.h+refundIn)}
+	default: // UNSTAKEALL
+		return []string{fmt.Sprintf("Un %d%%N %d%%N 0 %s %d%%N", m.idx(origin), m.idx(w.KM), zlit(nx.Tokens(mi.Stake)), m.h+refundIn)}
+	}
+}
+
+// txArg: calldata word 0 of the tx (what KM's CALLDATALOAD(0) sees when the tx calls KM directly).
+func (w *world) contractModel(src common.Address, txArg *big.Int, cp cparams) func(m *mctx) (string, bool) {
+	return func(m *mctx) (string, bool) {
+		info := m.info
 		if info == nil || (info.Ran && !info.Parsed) {
 			return "", false
 		}
@@ -486,83 +606,99 @@ func contractModel(src common.Address) func(idx func(common.Address) int, info *
 		for _, e := range info.Trace {
 			switch e.Kind {
 			case "V":
-				evs = append(evs, fmt.Sprintf("V %d%%N %d%%N %s", idx(e.A), idx(e.B), zlit(e.V)))
+				evs = append(evs, fmt.Sprintf("V %d%%N %d%%N %s", m.idx(e.A), m.idx(e.B), zlit(e.V)))
+				if e.B == w.KM { // KM starts running here; its custom opcode is the first thing it does
+					amt := txArg
+					if e.A == w.C[0] {
+						amt = w.c0Arg
+					}
+					if amt == nil {
+						amt = new(big.Int)
+					}
+					evs = append(evs, w.customEvents(&customOp{w.kmOp, amt}, src, m)...)
+				}
 			case "K":
-				evs = append(evs, fmt.Sprintf("K %d%%N %d%%N", idx(e.A), idx(e.B)))
+				evs = append(evs, fmt.Sprintf("K %d%%N %d%%N", m.idx(e.A), m.idx(e.B)))
 			case "S":
 				evs = append(evs, fmt.Sprintf("S %d%%N", e.Id))
 			case "R":
 				evs = append(evs, fmt.Sprintf("R %d%%N", e.Id))
 			}
 		}
-		evmOK := rc != nil && rc.Status == 1
-		gasFee := new(big.Int)
-		if rc != nil {
-			gasFee.Mul(new(big.Int).SetUint64(rc.GasUsed), gwei)
+		evmOK := m.rc != nil && m.rc.Status == 1
+		gasUsed := uint64(0)
+		if m.rc != nil && info.Ran {
+			gasUsed = m.rc.GasUsed
 		}
-		return fmt.Sprintf("TContract %d%%N %s %s %s %s [%s] %s %s None", idx(src), hx.CoqBool(info.DecodeOK), zlit(info.LimitFee), zlit(info.Value),
-			hx.CoqBool(info.IntrinsicOK), strings.Join(evs, "; "), hx.CoqBool(evmOK), zlit(gasFee)), true
+		stale := "None"
+		if m.stale != nil {
+			stale = "(Some " + new(big.Int).Mul(new(big.Int).SetUint64(*m.stale), gwei).String() + ")"
+		}
+		return fmt.Sprintf("TC %d%%N %s [%s] %s %d %s", m.idx(src), cp.coq(), strings.Join(evs, "; "), hx.CoqBool(evmOK), gasUsed, stale), true
 	}
 }
 
 var nextMiner = 1
-
-func (w *world) accountHeld(acc []byte) bool {
-	for _, id := range w.minerId {
-		if m := service.MinerManagerImpl.GetMiner(id, w.ADB); m != nil && string(m.Account) == string(acc) {
-			return true
-		}
-	}
-	return false
-}
+var nextAcct = 0x60
 
 func (w *world) genLock(r *hx.Rng, src common.Address) gen {
 	srcHex := nx.AddrHex(src)
-	if len(w.minerId) > 0 && r.Intn(2) == 0 { // add stake
+	if len(w.minerId) > 0 && r.Intn(5) < 2 { // add stake
 		id := w.minerId[r.Intn(len(w.minerId))]
-		if r.Intn(6) == 0 {
+		if r.Intn(8) == 0 {
 			id = []byte{0xde, 0xad}
 		}
 		delta := []uint64{0, 1, 100, 400, 5000, 999999}[r.Intn(6)]
 		md, _ := json.Marshal(types.Miner{Id: id, Stake: delta})
 		tx := nx.NewTx(types.TransactionTypeMinerAdd, srcHex, "", string(md), "")
-		exists := service.MinerManagerImpl.GetMiner(id, w.ADB) != nil
-		regOK := delta == 0 || exists
 		return gen{kind: "lock", tx: tx, desc: map[string]interface{}{"src": short(w, src), "add": delta, "id": common.ToHex(id)},
-			model: func(idx func(common.Address) int, _ *nx.ContractInfo, _ *types.Receipt) (string, bool) {
-				return fmt.Sprintf("TLock %d%%N %s %s", idx(src), nx.Tokens(delta).String(), hx.CoqBool(regOK)), true
+			model: func(m *mctx) (string, bool) {
+				// AddStake: delta 0 succeeds without touching anything; balance check (the model's); then the miner must exist
+				regOK := delta == 0 || service.MinerManagerImpl.GetMiner(id, m.pre) != nil
+				return fmt.Sprintf("TLock %d%%N %s %s", m.idx(src), utility.Float64ToBigInt(float64(delta)).String(), hx.CoqBool(regOK)), true
 			}}
 	}
 	typ := byte(r.Intn(2))
-	if r.Intn(10) == 0 {
+	if r.Intn(12) == 0 {
 		typ = 2
 	}
-	stake := []uint64{400, 399, 2000, 1999, 800, 0, 2500, 6000}[r.Intn(8)]
+	stake := []uint64{400, 400, 800, 401, 399, 0, 2500}[r.Intn(7)]
+	if typ == common.MinerTypeProposer {
+		stake = []uint64{2000, 2000, 2500, 6000, 1999, 800, 2001}[r.Intn(7)]
+	}
 	id := []byte{0x70, byte(nextMiner >> 8), byte(nextMiner)}
 	nextMiner++
-	if len(w.minerId) > 0 && r.Intn(6) == 0 {
+	if len(w.minerId) > 0 && r.Intn(8) == 0 {
 		id = w.minerId[r.Intn(len(w.minerId))]
 	}
 	acct := src.Bytes()
-	if r.Intn(6) == 0 {
+	switch r.Intn(8) {
+	case 0, 1, 2:
+		nextAcct++
+		acct = nx.Addr(nextAcct).Bytes()
+		w.base = append(w.base, nx.Addr(nextAcct))
+	case 3:
 		acct = w.T[r.Intn(2)].Bytes()
 	}
 	pk := []byte{1, 2}
-	if r.Intn(12) == 0 {
+	if r.Intn(14) == 0 {
 		pk = nil
 	}
-	m := types.Miner{Id: id, PublicKey: pk, VrfPublicKey: []byte{3}, Type: typ, Stake: stake, Account: acct}
-	md, _ := json.Marshal(m)
+	mi := types.Miner{Id: id, PublicKey: pk, VrfPublicKey: []byte{3}, Type: typ, Stake: stake, Account: acct}
+	md, _ := json.Marshal(mi)
 	tx := nx.NewTx(types.TransactionTypeMinerApply, srcHex, "", string(md), "")
 	min := common.ValidatorStake
 	if typ == common.MinerTypeProposer {
 		min = common.ProposerStake
 	}
-	regOK := typ <= 1 && stake >= min && len(pk) > 0 && service.MinerManagerImpl.GetMiner(id, w.ADB) == nil && !w.accountHeld(acct)
 	w.minerId = append(w.minerId, id)
 	return gen{kind: "lock", tx: tx, desc: map[string]interface{}{"src": short(w, src), "apply": stake, "type": typ, "id": common.ToHex(id), "account": common.ToHex(acct)},
-		model: func(idx func(common.Address) int, _ *nx.ContractInfo, _ *types.Receipt) (string, bool) {
-			return fmt.Sprintf("TLock %d%%N %s %s", idx(src), nx.Tokens(stake).String(), hx.CoqBool(regOK)), true
+		model: func(m *mctx) (string, bool) {
+			// AddMiner's registry-side checks, read from the registry just before the tx with the node's own lookups
+			// (id through GetMiner, account through the iterator-based GetMinerIdByAccount: property C20)
+			regOK := typ <= 1 && stake >= min && len(pk) > 0 && service.MinerManagerImpl.GetMiner(id, m.pre) == nil &&
+				service.MinerManagerImpl.GetMinerIdByAccount(acct, m.pre) == nil
+			return fmt.Sprintf("TLock %d%%N %s %s", m.idx(src), utility.Float64ToBigInt(float64(stake)).String(), hx.CoqBool(regOK)), true
 		}}
 }
 
@@ -571,58 +707,112 @@ func (w *world) genRefund(r *hx.Rng, src common.Address) gen {
 	if len(w.minerId) > 0 {
 		id = w.minerId[r.Intn(len(w.minerId))]
 		// prefer a miner controlled by one of the senders, and let that sender ask
-		for _, c := range w.minerId {
-			if m := service.MinerManagerImpl.GetMiner(c, w.ADB); m != nil && r.Intn(3) > 0 {
-				for _, s := range w.S {
+		var own [][2]int
+		for ci, c := range w.minerId {
+			if m := service.MinerManagerImpl.GetMiner(c, w.ADB); m != nil {
+				for si, s := range w.S {
 					if string(m.Account) == string(s.Bytes()) {
-						id = c
-						if r.Intn(8) > 0 {
-							src = s
-						}
+						own = append(own, [2]int{ci, si})
 					}
 				}
 			}
 		}
+		if len(own) > 0 && r.Intn(8) > 0 {
+			o := own[r.Intn(len(own))]
+			id = w.minerId[o[0]]
+			if r.Intn(10) > 0 {
+				src = w.S[o[1]]
+			}
+		}
 	}
+	amts := []string{"0", "1", "100", "100", "400", "400", "50", "399", "1600", "2000", "18446744073709551615", "18446744073709551615", "99999", "abc", "-1", "1.5"}
+	return w.mkRefund(id, src, amts[r.Intn(len(amts))])
+}
+
+// owned: (index into minerId, index into S) of the miners whose account is one of the senders.
+func (w *world) owned() [][2]int {
+	var own [][2]int
+	for ci, c := range w.minerId {
+		if m := service.MinerManagerImpl.GetMiner(c, w.ADB); m != nil {
+			for si, s := range w.S {
+				if string(m.Account) == string(s.Bytes()) {
+					own = append(own, [2]int{ci, si})
+				}
+			}
+		}
+	}
+	return own
+}
+
+func (w *world) mkRefund(id []byte, src common.Address, amt string) gen {
 	srcHex := nx.AddrHex(src)
-	amts := []string{"0", "1", "100", "100", "400", "400", "2000", "18446744073709551615", "99999", "abc", "-1", "1.5", "50", "399"}
-	amt := amts[r.Intn(len(amts))]
 	data, _ := json.Marshal(map[string]string{"Amount": amt, "MinerId": common.ToHex(id)})
 	tx := nx.NewTx(types.TransactionTypeMinerRefund, srcHex, "", string(data), "")
-	m := service.MinerManagerImpl.GetMiner(id, w.ADB)
-	val, perr := strconv.ParseUint(amt, 10, 64)
-	regOK := perr == nil && m != nil && string(m.Account) == string(src.Bytes())
-	released := uint64(0)
-	if regOK {
-		released = val
-		if val == ^uint64(0) {
-			released = m.Stake
-		}
-		if released > m.Stake {
-			regOK = false
-		}
-	}
-	h := w.h + refundIn
 	return gen{kind: "refund", tx: tx, desc: map[string]interface{}{"src": short(w, src), "amount": amt, "id": common.ToHex(id)},
-		model: func(idx func(common.Address) int, _ *nx.ContractInfo, _ *types.Receipt) (string, bool) {
-			return fmt.Sprintf("TRefundReq %d%%N %s %d%%N %d%%N %s", idx(src), nx.Tokens(released).String(), h, idx(src), hx.CoqBool(regOK)), true
+		model: func(m *mctx) (string, bool) {
+			mi := service.MinerManagerImpl.GetMiner(id, m.pre)
+			val, perr := strconv.ParseUint(amt, 10, 64)
+			regOK := perr == nil && mi != nil && string(mi.Account) == string(src.Bytes())
+			released := uint64(0)
+			if regOK {
+				released = val
+				if val == ^uint64(0) {
+					released = mi.Stake
+				}
+				if released > mi.Stake {
+					regOK, released = false, 0
+				}
+			}
+			return fmt.Sprintf("TRefundReq %d%%N %s %d%%N %d%%N %s", m.idx(src), nx.Tokens(released).String(), m.h+refundIn, m.idx(src), hx.CoqBool(regOK)), true
 		}}
 }
 
-// custom opcodes: the miner contract KM runs STAKE / UNSTAKE / UNSTAKEALL with an amount from calldata
+// custom opcodes: the miner contract KM runs STAKE / UNSTAKE / UNSTAKEALL with an amount from calldata and then stops
+// or reverts; it is called directly by the tx or through C0 (so that a reverting KM frame inside a succeeding tx
+// must take its stake / escrow effect back).
 func (w *world) genCustom(r *hx.Rng, src common.Address) gen {
-	op := []byte{nx.STAKE, nx.UNSTAKE, nx.UNSTAKE, nx.UNSTAKE}[r.Intn(4)]
+	op := []byte{nx.STAKE, nx.STAKE, nx.UNSTAKE, nx.UNSTAKE, nx.UNSTAKE, nx.UNSTAKEALL}[r.Intn(6)]
 	a := &nx.Asm{}
-	a.Op(nx.ADDRESS).PushU(0).Op(nx.CALLDATALOAD, op, nx.POP, nx.STOP)
-	w.ADB.SetCode(w.KM, a.B)
-	amts := []string{"0.5", "1", "100", "0.000000000000000001", "399.5", "1.5", "400", "115792089237316195423570985008687907853269984665640564039457"}
-	amt := nx.Wei(amts[r.Intn(len(amts))])
-	tx := nx.NewTx(types.TransactionTypeContract, nx.AddrHex(src), nx.AddrHex(w.KM), contractData("3000000", "0", utility.LeftPadBytes(amt.Bytes(), 32)), "")
-	name := "stake"
-	if op == nx.UNSTAKE {
-		name = "unstake"
+	if op == nx.UNSTAKEALL {
+		a.Op(nx.ADDRESS, op, nx.POP)
+	} else {
+		a.Op(nx.ADDRESS).PushU(0).Op(nx.CALLDATALOAD, op, nx.POP)
 	}
-	return gen{kind: "custom", tx: tx, custom: name, desc: map[string]interface{}{"src": short(w, src), "op": name, "amount": amt.String()}}
+	term := "stop"
+	if r.Intn(3) == 0 {
+		term = "revert"
+		a.PushU(0).PushU(0).Op(nx.REVERT)
+	} else {
+		a.Op(nx.STOP)
+	}
+	w.ADB.SetCode(w.KM, a.B)
+	w.kmOp = op
+	amts := []string{"0.5", "1", "100", "0.000000000000000001", "399.5", "1.5", "400", "401", "50", "2.25", "0", "115792089237316195423570985008687907853269984665640564039457", "20000000000"}
+	amt := nx.Wei(amts[r.Intn(len(amts))])
+	name := map[byte]string{nx.STAKE: "stake", nx.UNSTAKE: "unstake", nx.UNSTAKEALL: "unstakeall"}[op]
+	arg := utility.LeftPadBytes(amt.Bytes(), 32)
+	cust := &customOp{op, amt}
+	via := "direct"
+	tgt := w.KM
+	if r.Intn(3) == 0 { // through C0: MSTORE the amount, CALL KM with it, then move a little value and stop
+		via = "via-C0"
+		tgt = w.C[0]
+		c := &nx.Asm{}
+		c.PushBytes(arg).PushU(0).Op(nx.MSTORE)
+		c.PushU(0).PushU(0).PushU(32).PushU(0).PushU(0).PushAddr(w.KM).PushU(0xffffffff).Op(nx.CALL, nx.POP)
+		c.PushU(0).PushU(0).PushU(0).PushU(0).PushU(1).PushAddr(w.T[0]).PushU(0xffff).Op(nx.CALL, nx.POP, nx.STOP)
+		w.ADB.SetCode(w.C[0], c.B)
+		w.c0Arg = amt
+		w.progDesc = map[string]interface{}{"C0": []string{"call KM(" + name + ")", "call:T0 1wei", "stop"}, "C1": []string{}, "C2": []string{}}
+	}
+	val := "0"
+	if r.Intn(4) == 0 {
+		val = "1.5"
+	}
+	tx := nx.NewTx(types.TransactionTypeContract, nx.AddrHex(src), nx.AddrHex(tgt), contractData("3000000", val, arg), "")
+	return gen{kind: "custom", tx: tx, custom: cust,
+		desc:  map[string]interface{}{"src": short(w, src), "op": name, "amount": amt.String(), "km": term, "via": via, "value": val},
+		model: w.contractModel(src, amt, cparams{true, "3000000", val, arg, false})}
 }
 
 // burnOf replays the primitive-level trace to find what self-suicides destroyed (net of reverts).
@@ -657,12 +847,12 @@ func burnOf(tr []nx.Ev) *big.Int {
 func main() {
 	a := hx.ParseArgs()
 	rng := hx.NewRng(a.Seed)
-	res := hx.NewResult("a block is non-trivial when its transaction passed the fee step and either moved value (balances, stake or escrow changed beyond the fee) or was rejected after BeforeExecute; distinct = distinct (kind, outcome, program/amount description)")
-	cs := hx.NewCases(a.Out, "From V.C06 Require Import Model Harness.", "list Z * list (N * addr * Z) * list op * obs", "check", 150)
+	res := hx.NewResult("one evaluation = one transaction executed inside a block by the real VMExecutor loop (or one empty block); non-trivial when the transaction passed the fee step and either moved value (balances, stake or escrow changed beyond the fee) or was rejected after BeforeExecute; distinct = distinct (kind, outcome class, program/amount description)")
+	cs := hx.NewCases(a.Out, "From V.C06 Require Import Model Harness.", "list Z * list (N * addr * Z) * list op * obs", "check", 300)
 	nx.Boot(20)
 
 	var w *world
-	blocksPerWorld := 120
+	blocksPerWorld := 100
 	for i := 0; i < a.N; i++ {
 		if w == nil || i%blocksPerWorld == 0 {
 			w = newWorld(rng)
@@ -681,7 +871,7 @@ func main() {
 }
 
 // setupMiners: KM (a contract) becomes the account of a validator so that STAKE/UNSTAKE programs find a miner;
-// S0 becomes the account of a proposer used as block castor (reward path).
+// T1 becomes the account of a proposer used as block castor (reward path).
 func (w *world) setupMiners() {
 	id := []byte{0x6b, 0x6d}
 	m := types.Miner{Id: id, PublicKey: []byte{1}, VrfPublicKey: []byte{2}, Type: common.MinerTypeValidator, Stake: 800, Account: w.KM.Bytes()}
@@ -707,6 +897,40 @@ func (w *world) setupMiners() {
 	w.Boundary()
 }
 
+// ---- reading a ledger ----
+type snap struct {
+	bal     []*big.Int
+	locked  *big.Int
+	esc     []escrowEntry
+	pending *big.Int // refund requests collected in the executor context, not yet handed to RefundManager.Add
+}
+
+func (s snap) wealth() *big.Int {
+	t := new(big.Int).Add(s.locked, escTotal(s.esc))
+	t.Add(t, s.pending)
+	for _, b := range s.bal {
+		t.Add(t, b)
+	}
+	return t
+}
+
+func (w *world) read(adb *account.AccountDB, uni []common.Address, ctx map[string]interface{}) snap {
+	s := snap{locked: w.lockedTotalOn(adb), esc: w.escrowOn(adb), pending: new(big.Int)}
+	for _, x := range uni {
+		s.bal = append(s.bal, adb.GetBalance(x))
+	}
+	if ctx != nil {
+		if m, ok := ctx["refund"].(map[uint64]types.RefundInfoList); ok {
+			for _, l := range m {
+				for _, e := range l.List {
+					s.pending.Add(s.pending, e.Value)
+				}
+			}
+		}
+	}
+	return s
+}
+
 func (w *world) step(r *hx.Rng, res *hx.Result, cs *hx.Cases) {
 	// height: usually the next one; sometimes jump to a height at which escrow is due
 	w.h++
@@ -721,32 +945,107 @@ func (w *world) step(r *hx.Rng, res *hx.Result, cs *hx.Cases) {
 		w.h = due[0]
 		jumped = true
 	}
-	w.ADB.SetNonce(w.Auth, 0) // AUTHCALL bumps the authority's nonce; the generated programs always pass nonce 0
-	g := w.generate(r)
-	if jumped && r.Intn(2) == 0 {
-		g = gen{kind: "idle", desc: map[string]interface{}{}}
+	hd := w.h
+	// senders drained by earlier frames (AUTHCALL of the origin's balance) are usually topped up again, outside any tx
+	if r.Intn(4) > 0 {
+		if w.ADB.GetBalance(w.S[0]).Cmp(nx.Tokens(20000)) < 0 {
+			w.ADB.SetBalance(w.S[0], nx.Tokens(1000000))
+		}
+		if w.ADB.GetBalance(w.S[1]).Cmp(nx.Tokens(2500)) < 0 {
+			w.ADB.SetBalance(w.S[1], nx.Tokens(5000))
+		}
 	}
+	w.ADB.SetNonce(w.Auth, 0) // AUTHCALL bumps the authority's nonce; the generated programs always pass nonce 0
+	nTx := []int{1, 1, 1, 1, 1, 2, 2, 3, 4, 0}[r.Intn(10)]
+	if jumped && r.Intn(2) == 0 {
+		nTx = 0
+	}
+	installed := false
+	var gens []gen
+	if own := w.owned(); nTx > 0 && r.Intn(12) == 0 {
+		// several accounts ask for refunds in one block (their requests meet in one per-height list of the executor context)
+		seen := map[int]bool{}
+		for _, o := range own {
+			if !seen[o[1]] && len(gens) < 3 {
+				seen[o[1]] = true
+				gens = append(gens, w.mkRefund(w.minerId[o[0]], w.S[o[1]], []string{"1", "50", "100", "18446744073709551615"}[r.Intn(4)]))
+			}
+		}
+		nTx = 0
+		if r.Intn(2) == 0 {
+			nTx = 1
+		}
+	}
+	for i := 0; i < nTx; i++ {
+		g := w.generate(r, &installed)
+		gens = append(gens, g)
+		// a contract that self-destructs stays callable (suicided, not yet deleted) until the block's IntermediateRoot;
+		// the prefix copies below finalise after every prefix, so a later tx touching it would be replayed on a different
+		// state: such a call normally ends the block (the few blocks that go on are evaluated as a whole, see below)
+		if g.kind == "call" && strings.Contains(fmt.Sprint(w.progDesc), "selfdestruct") && r.Intn(8) > 0 {
+			break
+		}
+	}
+	// the first contract tx of a block is sometimes sent as a JSON-RPC (ETHTX) transaction: same executor core behind a
+	// nonce check; a refused one is dropped without receipt, so only funded senders with the right nonce are used
+	if len(gens) > 0 && (gens[0].kind == "call" || gens[0].kind == "create" || gens[0].kind == "custom") && r.Intn(4) == 0 {
+		g := &gens[0]
+		src := srcOf(*g)
+		if w.ADB.GetBalance(src).Cmp(fee) >= 0 {
+			g.tx.Type = types.TransactionTypeETHTX
+			g.tx.Nonce = w.ADB.GetNonce(src)
+			g.tx.Hash = g.tx.GenHash()
+			g.desc["as"] = "ethtx"
+		}
+	}
+	w.Boundary() // the installed programs are committed: the prefix copies below start from this root
 	var groupId []byte
-	rewardH := ((w.h + 35999) / 36000) * 36000
+	rewardH := ((hd + 35999) / 36000) * 36000
 	// a reward scheduled for the block's own height is credited by the same block's CheckAndMove: not separable
-	withReward := r.Intn(7) == 0 && rewardH != w.h
+	withReward := r.Intn(7) == 0 && rewardH != hd
 	if withReward {
 		groupId = w.groupId
 		w.heights[rewardH] = true
 	}
-	w.heights[w.h+refundIn] = true
-	w.heights[w.h] = true
+	w.heights[hd+refundIn] = true
+	w.heights[hd] = true
 
-	var info *nx.ContractInfo
-	var txs []*types.Transaction
-	if g.tx != nil {
-		txs = []*types.Transaction{g.tx}
-		if g.kind == "call" || g.kind == "create" || g.kind == "custom" {
-			ci := nx.ExtractContract(w.ADB, g.tx, nx.Header(w.h))
-			info = &ci
-		}
+	txs := make([]*types.Transaction, len(gens))
+	for i, g := range gens {
+		txs[i] = g.tx
 	}
-	// universe of this case
+	// ---- prefix states: copy k = committed state + txs[0..k) executed by the real loop without the after() phase ----
+	n := len(gens)
+	pre := make([]*account.AccountDB, n+1)
+	pctx := make([]map[string]interface{}, n+1)
+	var prs []*types.Receipt
+	infos := make([]*nx.ContractInfo, n)
+	var panicked interface{}
+	func() {
+		defer func() { panicked = recover() }()
+		for k := 0; k <= n; k++ {
+			adb, err := account.NewAccountDB(w.Root, w.TDB)
+			if err != nil {
+				panic(err)
+			}
+			pre[k] = adb
+			if k > 0 {
+				prs, pctx[k] = nx.RunPrefix(adb, hd, w.proposerId, groupId, txs[:k])
+			}
+		}
+		for k, g := range gens {
+			if g.kind == "call" || g.kind == "create" || g.kind == "custom" {
+				ci := nx.ExtractContract(pre[k], g.tx, headerOf(w, hd, groupId))
+				infos[k] = &ci
+			}
+		}
+	}()
+	if panicked != nil {
+		res.Count("panic", fmt.Sprint(descs(gens)), true)
+		violate(res, "C06/total:executor-panic", fmt.Sprintf("block execution panicked: %v", panicked), descs(gens))
+		return
+	}
+	// ---- universe of this case ----
 	uni := append([]common.Address{}, w.base...)
 	pos := map[common.Address]int{}
 	for i, x := range uni {
@@ -760,7 +1059,10 @@ func (w *world) step(r *hx.Rng, res *hx.Result, cs *hx.Cases) {
 		uni = append(uni, x)
 		return pos[x]
 	}
-	if info != nil {
+	for _, info := range infos {
+		if info == nil {
+			continue
+		}
 		for _, e := range info.Trace {
 			if e.Kind == "V" || e.Kind == "K" {
 				idx(e.A)
@@ -771,61 +1073,240 @@ func (w *world) step(r *hx.Rng, res *hx.Result, cs *hx.Cases) {
 			idx(info.Created)
 		}
 	}
-	escBefore := w.escrow()
+	escBefore := w.escrowOn(w.ADB)
 	for _, e := range escBefore {
 		idx(e.A)
 	}
-	balBefore := make([]*big.Int, len(uni))
-	for i, x := range uni {
-		balBefore[i] = w.ADB.GetBalance(x)
+	for k := 1; k <= n; k++ {
+		for _, e := range w.escrowOn(pre[k]) {
+			idx(e.A)
+		}
+		if m, ok := pctx[k]["refund"].(map[uint64]types.RefundInfoList); ok {
+			for _, l := range m {
+				for _, e := range l.List {
+					idx(common.BytesToAddress(e.Id))
+				}
+			}
+		}
 	}
-	lockedBefore := w.lockedTotal()
 	nUni := len(uni)
 
-	// ---- the real thing ----
-	hd := w.h
+	// ---- the real thing: the whole block with its after() phase ----
+	before := w.read(w.ADB, uni, nil)
 	var rs []*types.Receipt
-	var panicked interface{}
 	func() {
 		defer func() { panicked = recover() }()
-		rs = runBlockCastor(w, hd, groupId, txs)
+		rs = nx.RunBlockWith(w.World, hd, w.proposerId, groupId, txs...)
 	}()
 	if panicked != nil {
-		res.Count("panic", fmt.Sprint(g.desc), true)
-		violate(res, "C06/total:executor-panic", fmt.Sprintf("block execution panicked: %v", panicked), g.desc)
+		res.Count("panic", fmt.Sprint(descs(gens)), true)
+		violate(res, "C06/total:executor-panic", fmt.Sprintf("block execution panicked: %v", panicked), descs(gens))
 		w.Boundary()
 		return
 	}
-	var rc *types.Receipt
-	if len(rs) == 1 {
-		rc = rs[0]
-	}
-	escAfter := w.escrow()
+	escAfter := w.escrowOn(w.ADB)
 	for _, e := range escAfter {
 		idx(e.A)
 	}
-	lateAddr := len(uni) != nUni // an escrow beneficiary outside the universe appeared: its balance before is unknown
-	for i := nUni; i < len(uni); i++ {
-		balBefore = append(balBefore, new(big.Int))
-	}
-	balAfter := make([]*big.Int, len(uni))
-	for i, x := range uni {
-		balAfter[i] = w.ADB.GetBalance(x)
-	}
-	lockedAfter := w.lockedTotal()
-	w.Boundary()
-
-	// ---- direct evaluation of the property on the implementation ----
-	sum := func(bs []*big.Int) *big.Int {
-		s := new(big.Int)
-		for _, b := range bs {
-			s.Add(s, b)
+	after := w.read(w.ADB, uni, nil)
+	if len(uni) != nUni { // a reward beneficiary outside the universe appeared: read its balance at the pre-block root
+		old, err := account.NewAccountDB(w.Root, w.TDB)
+		if err != nil {
+			panic(err)
 		}
-		return s
+		for i := len(before.bal); i < len(uni); i++ {
+			before.bal = append(before.bal, old.GetBalance(uni[i]))
+		}
 	}
-	wealthBefore := new(big.Int).Add(new(big.Int).Add(sum(balBefore), lockedBefore), escTotal(escBefore))
-	wealthAfter := new(big.Int).Add(new(big.Int).Add(sum(balAfter), lockedAfter), escTotal(escAfter))
-	// reward scheduled by this block = growth of the escrow at the reward height not explained by refunds (refunds go to h+36000)
+	nAll := len(uni)
+	w.Boundary()
+	if len(rs) != n || len(prs) != n && n > 0 {
+		violate(res, "C06/correspondence:receipt-count", fmt.Sprintf("block of %d txs produced %d receipts (prefix run %d)", n, len(rs), len(prs)), descs(gens))
+		return
+	}
+
+	// the prefix copies are finalised (IntermediateRoot) after every prefix; the real block is not: a contract that
+	// self-destructed earlier in the block is still callable in the real run. The replay of tx k on its prefix copy is
+	// faithful only if it went the way the real run did (same outcome, same gas).
+	suicidedEarlier := false
+	for k := 0; k < n; k++ {
+		info := infos[k]
+		if info != nil && info.Ran && ((info.EvmErr == "") != (rs[k].Status == 1) || info.GasUsed != rs[k].GasUsed) {
+			if !suicidedEarlier {
+				violate(res, "C06/correspondence:extraction-diverged", fmt.Sprintf("trace extraction (err=%q gas=%d) and real execution (status=%d gas=%d) disagree on tx %d", info.EvmErr, info.GasUsed, rs[k].Status, rs[k].GasUsed, k), descs(gens))
+				return
+			}
+			res.Count("block:inseparable", "block:inseparable", false)
+			// evaluated as a whole, burns unknown: at least nothing may be created
+			d := new(big.Int).Sub(after.wealth(), before.wealth())
+			if !withReward && d.Sign() > 0 {
+				violate(res, "C06/mint:block-with-resurrected-contract", "balances + locked stake + escrow grew by "+d.String()+" over a block without reward", descs(gens))
+			}
+			return
+		}
+		if info != nil {
+			for _, e := range info.Trace {
+				if e.Kind == "K" {
+					suicidedEarlier = true
+				}
+			}
+		}
+		if prs[k].Status != rs[k].Status || prs[k].GasUsed != rs[k].GasUsed {
+			violate(res, "C06/correspondence:prefix-run-diverged", fmt.Sprintf("the block executed with and without its after() phase gave different receipts for tx %d", k), descs(gens))
+			return
+		}
+	}
+
+	// ---- direct evaluation of the property on the implementation, per transaction (prefix k -> k+1) ----
+	snaps := make([]snap, n+1)
+	for k := 0; k <= n; k++ {
+		snaps[k] = w.read(pre[k], uni[:nUni], pctx[k])
+	}
+	totalBurn := new(big.Int)
+	classes := make([]string, n)
+	for k, g := range gens {
+		rc, info := rs[k], infos[k]
+		success := rc.Status == 1
+		burn := new(big.Int)
+		if info != nil && info.Ran && success {
+			burn = burnOf(info.Trace)
+		}
+		totalBurn.Add(totalBurn, burn)
+		delta := new(big.Int).Sub(snaps[k+1].wealth(), snaps[k].wealth())
+		delta.Add(delta, burn)
+		class := g.kind
+		if success {
+			class += ":ok"
+		} else {
+			class += ":fail"
+		}
+		if g.custom != nil {
+			class += ":" + g.desc["op"].(string) + "/" + g.desc["km"].(string) + "/" + g.desc["via"].(string)
+		}
+		if info != nil && info.Ran {
+			hasK, hasR, hasV := false, false, false
+			for _, e := range info.Trace {
+				switch e.Kind {
+				case "K":
+					hasK = true
+				case "R":
+					hasR = true
+				case "V":
+					if e.V.Sign() != 0 {
+						hasV = true
+					}
+				}
+			}
+			if hasV {
+				class += "+value"
+			}
+			if hasK {
+				class += "+suicide"
+			}
+			if hasR {
+				class += "+revert"
+			}
+			if burn.Sign() != 0 {
+				class += "+burn"
+			}
+			if strings.Contains(info.EvmErr, "out of gas") {
+				class += "+oog"
+			}
+		} else if info != nil {
+			switch {
+			case !info.DecodeOK && !info.BeforeOK:
+				class += ":before-rejected"
+			case !info.BeforeOK:
+				class += ":precheck"
+			case !info.IntrinsicOK:
+				class += ":intrinsic"
+				if pctx[k] != nil && pctx[k]["gasUsed"] != nil {
+					class += "+stale-gas"
+				}
+			}
+		}
+		if k > 0 {
+			class += "#later"
+		}
+		classes[k] = class
+		if os.Getenv("C06_DEBUG") != "" && !success {
+			fmt.Printf("FAIL %s | %.60s\n", g.kind, rc.Msg)
+		}
+		src := srcOf(g)
+		feePaid := snaps[k+1].bal[0].Cmp(snaps[k].bal[0]) != 0
+		moved := false
+		for i := 1; i < nUni; i++ {
+			d := new(big.Int).Sub(snaps[k+1].bal[i], snaps[k].bal[i])
+			if d.Sign() != 0 && !(uni[i] == src && new(big.Int).Neg(d).Cmp(fee) == 0) {
+				moved = true
+			}
+		}
+		lockChanged := snaps[k+1].locked.Cmp(snaps[k].locked) != 0
+		nontrivial := feePaid && (moved || !success || lockChanged)
+		descJ, _ := json.Marshal(g.desc)
+		res.Count(class, g.kind+"|"+class+"|"+string(descJ), nontrivial)
+		input := map[string]interface{}{"kind": g.kind, "height": hd, "position_in_block": k, "block": descs(gens), "tx": g.desc,
+			"wealth_before": snaps[k].wealth().String(), "wealth_after": snaps[k+1].wealth().String(),
+			"allowed_burn": burn.String(), "unexplained_delta": delta.String(),
+			"receipt": map[string]interface{}{"status": rc.Status, "msg": rc.Msg, "gasUsed": rc.GasUsed}}
+		if res.Evaluations%131 == 1 {
+			res.Sample(input)
+		}
+		if delta.Sign() != 0 {
+			key, what := "", ""
+			gasFee := new(big.Int).Mul(new(big.Int).SetUint64(rc.GasUsed), gwei)
+			switch {
+			case (g.custom != nil && g.custom.op == nx.UNSTAKE || info != nil && w.kmOp == nx.UNSTAKE && reachesKM(w, info)) && delta.Sign() > 0:
+				key = "C06/refund-exact:unstake-opcode-credits-requested-amount"
+				what = "UNSTAKE opcode schedules the requested amount for the origin although the stake released is smaller (fractional amounts are truncated, oversized ones clamp to the whole stake): stake + escrow + balances grew by " + delta.String()
+			case g.kind == "opnode" && success && new(big.Int).Neg(delta).Cmp(tenTok) == 0:
+				key = "C06/decrease-only:operator-node-charge-destroyed"
+				what = "a successful operator-node tx debits 10 tokens from the source and credits nobody: the sum decreases by something that is neither stake nor a self-destruct"
+			case (g.kind == "call" || g.kind == "create" || g.kind == "custom") && success && delta.Sign() > 0 && delta.Cmp(gasFee) <= 0 && pre[k+1].GetBalance(src).Sign() == 0 && !g.negVal:
+				key = "C06/gas-mint:unchecked-sub-after-origin-drained"
+				what = "contract executor credited the gas fee to the fee account without debiting the drained origin: supply grew by " + delta.String()
+			case g.negVal && delta.Sign() > 0:
+				key = "C06/negative-value:vm-cantransfer-unsigned"
+				what = "contract tx with a negative transferValue credited sender and recipient: supply grew by " + delta.String()
+			case g.kind == "refund" && delta.Sign() < 0:
+				key = "C06/refund-exact:stake-released-but-not-scheduled"
+				what = "a miner refund released stake that was not scheduled for anybody: stake + escrow shrank by " + new(big.Int).Neg(delta).String()
+			case delta.Sign() > 0:
+				key = "C06/mint:" + strings.TrimSuffix(class, "#later")
+				what = "balances + locked stake + escrow grew by " + delta.String() + " without a scheduled reward"
+			default:
+				key = "C06/decrease-only:" + strings.TrimSuffix(class, "#later")
+				what = "balances + locked stake + escrow shrank by " + new(big.Int).Neg(delta).String() + " beyond stake locking and self-destruct burns"
+			}
+			violate(res, key, what, input)
+		}
+		for i, b := range snaps[k+1].bal {
+			if b.Sign() < 0 || b.BitLen() > 256 {
+				violate(res, "C06/nonneg:"+short(w, uni[i]), "balance negative or wider than a 256-bit slot: "+b.String(), input)
+			}
+		}
+		// a failed contract tx may leave nothing behind but fees
+		if (g.kind == "call" || g.kind == "create" || g.kind == "custom") && !success {
+			for i := 1; i < nUni; i++ {
+				if uni[i] != src && snaps[k+1].bal[i].Cmp(snaps[k].bal[i]) != 0 {
+					violate(res, "C06/failed-tx:balance-of-third-party-changed", "a failed contract tx changed the balance of "+short(w, uni[i]), input)
+				}
+			}
+			if lockChanged || escTotal(snaps[k+1].esc).Cmp(escTotal(snaps[k].esc)) != 0 {
+				violate(res, "C06/failed-tx:stake-or-escrow-changed", "a failed contract tx changed the locked stake or the refund escrow", input)
+			}
+		}
+	}
+	if n == 0 {
+		cl := "idle"
+		if jumped {
+			cl += "@due"
+		}
+		res.Count(cl, cl, false)
+	}
+
+	// ---- the block as a whole, with its after() phase (refund scheduling, reward, CheckAndMove) ----
+	// reward scheduled by this block = growth of the escrow at the reward height (refunds go to h+36000)
 	reward := new(big.Int)
 	var rewardEntries []escrowEntry
 	if withReward {
@@ -851,139 +1332,47 @@ func (w *world) step(r *hx.Rng, res *hx.Result, cs *hx.Cases) {
 			rewardEntries = nil
 		}
 	}
-	burn := new(big.Int)
-	success := rc != nil && rc.Status == 1
-	if info != nil && info.Ran && success {
-		burn = burnOf(info.Trace)
+	bdelta := new(big.Int).Sub(after.wealth(), before.wealth())
+	bdelta.Sub(bdelta, reward)
+	bdelta.Add(bdelta, totalBurn)
+	binput := map[string]interface{}{"height": hd, "block": descs(gens), "wealth_before": before.wealth().String(), "wealth_after": after.wealth().String(),
+		"allowed_burn": totalBurn.String(), "reward": reward.String(), "unexplained_delta": bdelta.String(),
+		"escrow_before": escStr(w, escBefore), "escrow_after": escStr(w, escAfter), "locked_before": before.locked.String(), "locked_after": after.locked.String()}
+	if bdelta.Sign() != 0 && !violated {
+		// every transaction balanced on its own: the after() phase (RefundManager.Add / reward / CheckAndMove) lost or created value
+		violate(res, "C06/block:after-phase", "the block's transactions balance one by one but the block as a whole does not: unexplained "+bdelta.String(), binput)
 	}
-	delta := new(big.Int).Sub(wealthAfter, wealthBefore)
-	delta.Sub(delta, reward)
-	delta.Add(delta, burn)
-	class := g.kind
-	if rc != nil {
-		if success {
-			class += ":ok"
-		} else {
-			class += ":fail"
-		}
+	if withReward && reward.Sign() < 0 {
+		violate(res, "C06/reward:negative", "the escrow at the reward height shrank", binput)
 	}
-	if info != nil && info.Ran {
-		hasK, hasR, hasV := false, false, false
-		for _, e := range info.Trace {
-			switch e.Kind {
-			case "K":
-				hasK = true
-			case "R":
-				hasR = true
-			case "V":
-				if e.V.Sign() != 0 {
-					hasV = true
-				}
-			}
-		}
-		if hasV {
-			class += "+value"
-		}
-		if hasK {
-			class += "+suicide"
-		}
-		if hasR {
-			class += "+revert"
-		}
-		if burn.Sign() != 0 {
-			class += "+burn"
-		}
-		if info.EvmErr != "" && strings.Contains(info.EvmErr, "out of gas") {
-			class += "+oog"
-		}
-	} else if info != nil {
-		switch {
-		case !info.DecodeOK && !info.BeforeOK:
-			class += ":before-rejected"
-		case !info.BeforeOK:
-			class += ":precheck"
-		case !info.IntrinsicOK:
-			class += ":intrinsic"
-		}
-	}
-	if jumped {
-		class += "@due"
-	}
-	if withReward {
-		class += "+reward"
-	}
-	feePaid := balAfter[0].Cmp(balBefore[0]) != 0
-	moved := false
-	for i := 1; i < len(uni) && i < len(balBefore); i++ {
-		d := new(big.Int).Sub(balAfter[i], balBefore[i])
-		if d.Sign() != 0 && !(uni[i] == srcOf(g) && new(big.Int).Neg(d).Cmp(fee) == 0) {
-			moved = true
-		}
-	}
-	nontrivial := feePaid && (moved || !success || lockedAfter.Cmp(lockedBefore) != 0)
-	descJ, _ := json.Marshal(g.desc)
-	res.Count(class, g.kind+"|"+class+"|"+string(descJ), nontrivial)
-	if res.Evaluations%97 == 1 {
-		res.Sample(map[string]interface{}{"kind": g.kind, "class": class, "height": hd, "tx": g.desc, "wealth_before": wealthBefore.String(), "wealth_after": wealthAfter.String(), "burn": burn.String(), "reward": reward.String()})
-	}
-	input := map[string]interface{}{"kind": g.kind, "height": hd, "tx": g.desc, "wealth_before": wealthBefore.String(), "wealth_after": wealthAfter.String(),
-		"allowed_burn": burn.String(), "reward": reward.String(), "unexplained_delta": delta.String()}
-	if rc != nil {
-		input["receipt"] = map[string]interface{}{"status": rc.Status, "msg": rc.Msg, "gasUsed": rc.GasUsed}
-	}
-	if delta.Sign() != 0 {
-		key, what := "", ""
-		gasFee := new(big.Int)
-		if rc != nil {
-			gasFee.Mul(new(big.Int).SetUint64(rc.GasUsed), gwei)
-		}
-		switch {
-		case g.custom == "unstake" && delta.Sign() > 0:
-			key = "C06/refund-exact:unstake-opcode-credits-requested-amount"
-			what = "UNSTAKE opcode schedules the requested amount for the origin although the stake released is smaller (fractional amounts are truncated, oversized ones clamp to the whole stake): stake + escrow + balances grew by " + delta.String()
-		case g.kind == "opnode" && success && new(big.Int).Neg(delta).Cmp(tenTok) == 0:
-			key = "C06/decrease-only:operator-node-charge-destroyed"
-			what = "a successful operator-node tx debits 10 tokens from the source and credits nobody: the sum decreases by something that is neither stake nor a self-destruct"
-		case (g.kind == "call" || g.kind == "create") && success && delta.Sign() > 0 && delta.Cmp(gasFee) <= 0 && w.balOf(srcOf(g)).Sign() == 0 && !g.negVal:
-			key = "C06/gas-mint:unchecked-sub-after-origin-drained"
-			what = "contract executor credited the gas fee to the fee account without debiting the drained origin: supply grew by " + delta.String()
-		case g.negVal && delta.Sign() > 0:
-			key = "C06/negative-value:vm-cantransfer-unsigned"
-			what = "contract tx with a negative transferValue credited sender and recipient: supply grew by " + delta.String()
-		case delta.Sign() > 0:
-			key = "C06/mint:" + class
-			what = "balances + locked stake + escrow grew by " + delta.String() + " without a scheduled reward"
-		default:
-			key = "C06/decrease-only:" + class
-			what = "balances + locked stake + escrow shrank by " + new(big.Int).Neg(delta).String() + " beyond stake locking and self-destruct burns"
-		}
-		violate(res, key, what, input)
-	}
-	for i, b := range balAfter {
+	for i, b := range after.bal {
 		if b.Sign() < 0 || b.BitLen() > 256 {
-			violate(res, "C06/nonneg:"+short(w, uni[i]), "balance negative or wider than a 256-bit slot: "+b.String(), input)
+			violate(res, "C06/nonneg:"+short(w, uni[i]), "balance negative or wider than a 256-bit slot: "+b.String(), binput)
 		}
 	}
 
 	// ---- model case ----
-	if g.kind == "custom" || (withReward && rewardEntries == nil && reward.Sign() != 0) || lateAddr {
-		return // custom opcodes are searched, not modelled
+	if withReward && rewardEntries == nil && reward.Sign() != 0 {
+		return
 	}
 	var ops []string
-	if g.model != nil {
-		t, ok := g.model(idx, info, rc)
+	for k, g := range gens {
+		m := &mctx{idx: idx, pre: pre[k], info: infos[k], rc: rs[k], h: hd}
+		if pctx[k] != nil {
+			if gu, ok := pctx[k]["gasUsed"].(uint64); ok {
+				m.stale = &gu
+			}
+		}
+		descJ, _ := json.Marshal(g.desc)
+		t, ok := g.model(m)
 		if !ok {
 			res.Note("trace of a contract tx did not parse into model events; case skipped: " + string(descJ))
 			return
 		}
-		if info != nil && info.Ran && rc != nil {
-			// the extraction run must have seen what the real run did
-			if (info.EvmErr == "") != success || info.GasUsed != rc.GasUsed {
-				violate(res, "C06/correspondence:extraction-diverged", fmt.Sprintf("trace extraction (err=%q gas=%d) and real execution (status=%d gas=%d) disagree", info.EvmErr, info.GasUsed, rc.Status, rc.GasUsed), input)
-				return
-			}
-		}
 		ops = append(ops, "OTx ("+t+")")
+	}
+	if len(uni) != nAll {
+		return // a model-term builder named an address whose balance was not read
 	}
 	if len(rewardEntries) > 0 {
 		var ps []string
@@ -1004,10 +1393,47 @@ func (w *world) step(r *hx.Rng, res *hx.Result, cs *hx.Cases) {
 		}
 		return "[" + strings.Join(ss, "; ") + "]"
 	}
-	term := fmt.Sprintf("(%s, [%s], [%s], Ob %s %s %s)", zs(balBefore), strings.Join(sc, "; "), strings.Join(ops, "; "), zs(balAfter),
-		zlit(new(big.Int).Sub(lockedAfter, lockedBefore)), zlit(escTotal(escAfter)))
-	term = strings.ReplaceAll(term, "(-", "(-") // negative literals are already parenthesised
-	cs.Add("("+term+")%Z", map[string]interface{}{"kind": g.kind, "class": class, "height": hd, "tx": g.desc, "ops": ops})
+	term := fmt.Sprintf("(%s, [%s], [%s], Ob %s %s %s)", zs(before.bal), strings.Join(sc, "; "), strings.Join(ops, "; "), zs(after.bal),
+		zlit(new(big.Int).Sub(after.locked, before.locked)), zlit(escTotal(escAfter)))
+	cs.Add("("+term+")%Z", map[string]interface{}{"classes": classes, "height": hd, "block": descs(gens), "ops": ops})
+}
+
+func escStr(w *world, es []escrowEntry) []string {
+	var out []string
+	for _, e := range es {
+		out = append(out, fmt.Sprintf("%d:%s:%s", e.H, short(w, e.A), e.V.String()))
+	}
+	return out
+}
+
+func reachesKM(w *world, info *nx.ContractInfo) bool {
+	for _, e := range info.Trace {
+		if e.Kind == "V" && e.B == w.KM {
+			return true
+		}
+	}
+	return false
+}
+
+func descs(gs []gen) []map[string]interface{} {
+	out := make([]map[string]interface{}, len(gs))
+	for i, g := range gs {
+		d := map[string]interface{}{"kind": g.kind}
+		for k, v := range g.desc {
+			d[k] = v
+		}
+		out[i] = d
+	}
+	return out
+}
+
+func headerOf(w *world, h uint64, groupId []byte) *types.BlockHeader {
+	hd := nx.Header(h)
+	if w.proposerId != nil {
+		hd.Castor = w.proposerId
+	}
+	hd.GroupId = groupId
+	return hd
 }
 
 var violated bool
@@ -1022,10 +1448,4 @@ func srcOf(g gen) common.Address {
 		return common.Address{}
 	}
 	return common.HexToAddress(g.tx.Source)
-}
-
-func (w *world) balOf(a common.Address) *big.Int { return w.ADB.GetBalance(a) }
-
-func runBlockCastor(w *world, h uint64, groupId []byte, txs []*types.Transaction) []*types.Receipt {
-	return nx.RunBlockWith(w.World, h, w.proposerId, groupId, txs...)
 }
